@@ -43,7 +43,7 @@ CHECKS = [
            'sit before every shared-access bytecode instruction of the store classes and NetworkXPropertyGraph.add_node and at lock '
            'operations; every schedule with <= 2 (quick) / <= 3 (thorough) preemptions is executed. Oracle: no thread raised, no deadlock, '
            'allocated internal ids pairwise distinct, final content equals that of some sequential order, lock free and balanced.',
-      note='Callees outside the registered code objects (networkx, networkx_query) are atomic steps; memory-model effects below the GIL are '
+      note='Callees outside the registered code objects (networkx_query, most of networkx) are atomic steps - networkx.Graph.copy is registered; memory-model effects below the GIL are '
            'out of reach. Thread bodies only import and create nodes with distinct NodeIDs. One open finding (unlocked existence scan).'),
  dict(property_id='C03', engine='E2-enum', level='exploration',
       technique='model checking: bounded-exhaustive enumeration of codec values (all singles, all pairs of fields x values, all-set) on the real encoders/decoders',
@@ -64,7 +64,7 @@ CHECKS = [
            'names of all five sliver classes (setters, creation, rename, assignment), boot script and JSON blob limits and capacity values '
            'get the same two-sided treatment.',
       note='Long formats are covered to edit distance 1 around seeds, not over all strings; candidate alphabets are mostly ASCII. numa '
-           '(no pattern) is decided only for canonical decimals. Exact size limits are left unspecified (limit-1 / limit+1 are decided).'),
+           '(no pattern) is decided only for canonical decimals. For the JSON blobs the exact limit may go either way, consistently on every path; the boot script boundary is pinned.'),
  dict(property_id='C12', engine='E2-enum', level='exploration',
       technique='model checking: exhaustive enumeration of delegation sets and pool families on the real encoders and regrouping code',
       text='Every non-empty subset of three delegation ids with every per-id format (single, definition/reference of two pools) and four '
@@ -102,7 +102,7 @@ CHECKS = [
            'graph_validation_rules.json (vocabularies parsed from the file itself), the ownership structure, name uniqueness per scope and '
            'equality of every read-only view with the class listings are evaluated on the raw stored graph; views are probed for write-through.',
       note='States violating a structural rule are reported and not expanded further. Alphabet: 2 nodes, 3-5 component models, 6 service '
-           'types, 2 sub-interfaces; see fimmc/topo.py. One open finding (rename bypasses name uniqueness).'),
+           'types, 2 sub-interfaces; see fimmc/topo.py. Two open findings (rename bypasses name uniqueness; derived service-port / link names).'),
  dict(property_id='C08', engine='E1-bfs', level='model_checking',
       technique='model checking: explicit-state BFS; every applicable removal in every reached state compared with a reference prediction of the full post-state',
       text='Same driver and roots as C07. In every reached state every applicable removal / disconnect / un-peer / sub-interface removal '
@@ -201,6 +201,52 @@ CHECKS = [
       note='Lexical judgement only (no Cypher parser or server in the sandbox). Eight open findings: call sites that splice stored '
            'values or the graph id into the statement text unescaped.'),
 ]
+# what was added to each check after its first version (seed waves and triage of reported defects, DESIGN.md sections 8 and 10)
+ADDED = {
+ 'C01': 'History oracle: the topology object that already holds the model loads its own text / file again (same id). File-based '
+        'imports reuse a path that held another document before.',
+ 'C02': 'Blob values whose encoding is exactly as long as the size limit; sub-interfaces under dedicated and trunk ports; results of '
+        'reads are edited and read again (no aliasing).',
+ 'C03': 'Unknown fields carry values of every JSON kind (string, number, negative, float, bool, null, list, object) at every position; '
+        'decoding twice after editing the first result; finalized maintenance records and their entries.',
+ 'C04': 'File-based direct import next to the string variant, and documents whose nodes name two graphs (must be refused by both); '
+        'failing imports; allocator health is part of every canonical state; states are histories replayed on library-built stores.',
+ 'C05': 'Property bags, merge policies and id updates that contradict a node\'s identity (refused, or carried out with the identity '
+        'kept); merge policies for properties only one node has and unknown policies; whole-graph NodeID, per-node GraphID, None for '
+        'identity properties; agreement of the two backends on open queries.',
+ 'C06': 'Directed documents imported directly, re-import seen through an older handle, merge with a neighbour graph.',
+ 'C07': 'Refused calls are part of the alphabet (all failing variants of C09): what they leave behind is judged by the same rules. '
+        'Full type-vocabulary sweep (every node, component and service type). Roots R3 (crafted names) and R4 (switch services that '
+        'peer, a twin port name on a second switch service); links over service ports, the same interface twice, service-port type rewrites.',
+ 'C08': 'Undo through an older handle; a working copy next to an older model with the same element ids; root R4 (peerings of '
+        'switch services, also next to a connection); stub links over one interface; disconnecting through the wrong service.',
+ 'C09': 'Interfaces argument that cannot be walked (number, failing generator); nested slivers at node creation; derived names '
+        'that become too long; stale handles; links given as tuples whose returned handle is used.',
+ 'C10': 'History groups: validated, emptied, re-connected elsewhere (declared site); created, listed and validated once, then changed '
+        'through the creation handle (grown, shrunk, swapped, nodes relocated); two peered services; nodes made by add_switch / '
+        'add_facility with the site taken away; same-named service ports.',
+ 'C11': 'A P4 switch among the nodes in every position (resource type); facilities on a site of their own, also with a service type '
+        'that has no site limit; sizing by hints or none; decoy collectors used earlier in the process.',
+ 'C12': 'A pool called the empty string; detail fields set to an empty string / list; re-indexing after a change against a '
+        'container built from scratch; decoding twice.',
+ 'C13': 'Delegations written on stitching elements; a second partitioning of the untouched model; loading another model into the '
+        'topology object and partitioning again.',
+ 'C14': 'Families whose shared ports carry only one kind of delegation, and family F2x whose copies of a shared element differ in a '
+        'plain property (reference: the copy that brought the element in); allocator health in the canonical state.',
+ 'C15': 'Signed operand vectors; augmented assignment on a second name for an operand; every non-zero field appears in the printout.',
+ 'C16': 'Labels edited attribute by attribute after construction and then put on an element / a sliver; boot script boundary pinned '
+        '(1023 accepted, 1024 rejected); blob sizes around the limit in four text forms.',
+ 'C17': 'A SmartNIC described without its network service; equal user data in two spellings.',
+ 'C18': 'One Labels object shared by all ports and caller objects left untouched; results of the instance catalogue edited by the '
+        'caller; deviation bound 1 on the environment of the catalogue loaders (open fails, read fails, short read, then a retry).',
+ 'C19': 'Merge policy maps of size 0, 1 and 2; well-formedness also for the harmless variants; record contents as an environment answer.',
+ 'C20': 'Exception paths: for every operation of the lock model one execution per Python function entered while the lock is held, '
+        'that entry failing (fimmc/faults.py). First use of a store by two threads (no instance yet). networkx.Graph.copy is scheduling-'
+        'point code, so copies made outside a critical section are not atomic. Sequential allocation probes in every reached state.',
+}
+for _c in CHECKS:
+    if _c['property_id'] in ADDED:
+        _c['text'] = _c['text'] + ' Added later: ' + ADDED[_c['property_id']]
 _claimed = {c['property_id'] for c in CHECKS}
 NOT_APPLICABLE = [dict(property_id=p, reason='check not built yet in this revision (work in progress; model checking applies, see DESIGN.md)')
                   for p in ALL if p not in _claimed]
